@@ -140,4 +140,42 @@ def run(c, prog, R="C03.gram"):
             ft = spec.field_table(doc[dname][1])
             if ft is not None and T not in ("UDim2", "Rect", "Color3uint8") and len(ft) != len(sp["fields"]):
                 c.violation(R, f"doc-table|{T}", f"docs/binary.md's field table for {T} has {len(ft)} fields, the transcription {len(sp['fields'])}: spec/binary.json is out of date", "docs/binary.md", instance=inst + ":table")
+    # two layouts the generic comparison does not reach (a mixed struct; a byte-composed struct)
+    if "Content" in earms:
+        I = C01_arm.BinInterp(prog, prims=prims, depth=8, opaque=wire.OPAQUE)
+        try:
+            try:
+                I.eval(earms["Content"]["body"], {})
+            except sym.Exit:
+                pass
+            flat = flatten(N, I.events, frozenset({("is", base_v, VARIANT + "::Content")}))
+            first = flat[0][0] if flat else None
+            n += 1
+            # docs/binary.md: `SourceTypes | Array(Enum)`; Enum = unsigned 32-bit, big-endian, interleaved, NOT transformed
+            if first == "ilv_u32":
+                c.ok(R, "gram:Content:SourceTypes")
+            else:
+                c.violation(R, "layout|Content|SourceTypes", f"docs/binary.md (### Content) gives SourceTypes as Array(Enum) — untransformed big-endian u32, interleaved — but the encoder (and, dually, the decoder) uses `{first}`, the zig-zag transformed Int32 array: a decoder written from the document reads 0/2/4 for None/Uri/Object, and a file written from the document is rejected by rbx_binary (BadContentType)", core.loc(earms["Content"]["body"]), instance="gram:Content:SourceTypes")
+        except sym.Unsupported as e:
+            c.violation(R, "cannot-establish|Content", f"encoder arm Content: {e}", core.loc(earms["Content"]["body"]), instance="gram:Content:SourceTypes")
+    if "UniqueId" in earms:
+        I = C01_arm.BinInterp(prog, prims=prims, depth=8, opaque=wire.OPAQUE)
+        try:
+            try:
+                I.eval(earms["UniqueId"]["body"], {})
+            except sym.Exit:
+                pass
+            flat = flatten(N, I.events, frozenset({("is", base_v, VARIANT + "::UniqueId")}))
+            txt = repr(flat)
+            n += 1
+            mods = [m_ for m_ in ("rotate_left", "rotate_right", "swap_bytes") if m_ in txt]
+            be = "to_be_bytes" in txt
+            # docs/binary.md: Index, Time, Random `stored in the order as written above with no modifications`; the document's
+            # convention is little-endian unless a section says otherwise
+            if not mods and not be:
+                c.ok(R, "gram:UniqueId:bytes")
+            else:
+                c.violation(R, "layout|UniqueId|bytes", f"docs/binary.md (### UniqueId) says Index, Time and Random are stored in that order `with no modifications` (and integers are little-endian unless a section says otherwise); the encoder writes them {'big-endian' if be else 'little-endian'}{' and applies ' + ', '.join(mods) + ' to Random' if mods else ''}: a decoder written from the document recovers other numbers (UniqueId(1,2,3) reads back as (1,2,6) even when it guesses big-endian)", core.loc(earms["UniqueId"]["body"]), instance="gram:UniqueId:bytes")
+        except sym.Unsupported as e:
+            c.violation(R, "cannot-establish|UniqueId", f"encoder arm UniqueId: {e}", core.loc(earms["UniqueId"]["body"]), instance="gram:UniqueId:bytes")
     c.floor(R, n, 22, "documented layouts compared")
